@@ -132,7 +132,7 @@ theorem bind_specS (rest : Stack) (c : Partial) (k : String) (b : Bound) (hf : F
       | some y => simp [h] at hl
     have hc : c.bindings.lookup k = none := by simpa [hr] using hl
     refine ⟨{ c with bindings := c.bindings ++ [(k, b)] }, ⟨rfl, fun h => by simp at h⟩,
-      ⟨⟨fun k' x h => lookup_snoc_of_some _ _ _ _ _ h, fun _ _ h => h, fun _ _ h => h⟩, rfl, rfl⟩, rfl,
+      ⟨⟨fun k' x h => lookup_snoc_of_some _ _ _ _ _ h, fun _ _ h => h, fun _ _ h => h, id⟩, rfl, rfl⟩, rfl,
       ⟨fun k' x hm => ?_, hf.v, hf.n, nodup_snoc _ _ _ hf.bd hc, hf.vd, hf.nd, hf.nbn⟩, fun _ => ?_⟩
     · rcases List.mem_append.1 hm with h1 | h1
       · exact hf.b _ _ h1
@@ -174,7 +174,7 @@ theorem bindValue_specS (p : GPat) (rest : Stack) (c : Partial) (vp : VPat) (v :
           | some y => simp [h] at hl
         have hc : c.vb.lookup k = none := by simpa [hr] using hl
         refine ⟨{ c with vb := c.vb ++ [(k, v)] }, ⟨rfl, fun h => by simp at h⟩,
-          ⟨⟨fun _ _ h => h, fun k' x h => lookup_snoc_of_some _ _ _ _ _ h, fun _ _ h => h⟩, rfl, rfl⟩,
+          ⟨⟨fun _ _ h => h, fun k' x h => lookup_snoc_of_some _ _ _ _ _ h, fun _ _ h => h, id⟩, rfl, rfl⟩,
           ⟨hf.b, fun k' x hm => ?_, hf.n, hf.bd, nodup_snoc _ _ _ hf.vd hc, hf.nd, hf.nbn⟩, fun _ => ?_⟩
         · rcases List.mem_append.1 hm with h1 | h1
           · exact hf.v _ _ h1
@@ -213,7 +213,7 @@ theorem bindValue2_specS (fix2 : Bool) (p : GPat) (rest : Stack) (c : Partial) (
           | some y => simp [h] at hl
         have hc : c1.vb.lookup k = none := by simpa [hr] using hl
         refine ⟨{ c1 with vb := c1.vb ++ [(k, v)] }, ⟨rfl, fun h => by simp at h⟩, e1.trans
-            ⟨⟨fun _ _ h => h, fun k' x h => lookup_snoc_of_some _ _ _ _ _ h, fun _ _ h => h⟩, rfl, rfl⟩,
+            ⟨⟨fun _ _ h => h, fun k' x h => lookup_snoc_of_some _ _ _ _ _ h, fun _ _ h => h, id⟩, rfl, rfl⟩,
           ⟨f1.b, fun k' x hm => ?_, f1.n, f1.bd, nodup_snoc _ _ _ f1.vd hc, f1.nd, f1.nbn⟩, fun _ => ?_⟩
         · rcases List.mem_append.1 hm with h1 | h1
           · exact f1.v _ _ h1
@@ -797,7 +797,7 @@ theorem matchAlts_specS (E : Env) (rec : NPId → NodeId → Stack → R) (hrec 
         have lecm : Le c (c.mergeAll cur2) :=
           ⟨fun k x h => by rw [eb]; simp [List.lookup_append, h],
            fun k x h => by rw [ev]; simp [List.lookup_append, h],
-           fun k x h => by rw [en]; simp [List.lookup_append, h]⟩
+           fun k x h => by rw [en]; simp [List.lookup_append, h], fun h => eok ▸ h⟩
         refine ⟨c.mergeAll cur2, ⟨rfl, fun h => by simp at h⟩, lecm, fm, fun _ => ⟨?_, 0, alt, rfl, ?_, ?_⟩⟩
         · intro q m hq'
           rw [hnode q] at hq'
@@ -990,7 +990,7 @@ theorem nodeStep_specS (E : Env) (rec : NPId → NodeId → Stack → R) (hrec :
         rw [lookupNode_cons] at hm'
         obtain ⟨hmr, hm1⟩ := or_none_both hm'
         have l12 : Le c1 c2 :=
-          ⟨fun _ _ h => h, fun _ _ h => h, fun k x h => lookup_snoc_of_some _ _ _ _ _ h⟩
+          ⟨fun _ _ h => h, fun _ _ h => h, fun k x h => lookup_snoc_of_some _ _ _ _ _ h, id⟩
         have hnp2 : lookupNode (c2 :: rest) np = some n := by
           rw [lookupNode_cons, hmr]
           simp [c2, lookup_snoc_self _ _ _ hm1]
